@@ -265,14 +265,16 @@ def r11(db, rep):
     cfg = Cfg(body)
     tm = terms_of(db, fn, {})
     bd = sl = al = None
-    for nm, pl in body.get("names", []):
-        if len(pl) == 1:
-            if nm == "branch_delay" and bd is None:
-                bd = pl[0]
-            if nm == "successors" and sl is None:
-                sl = pl[0]
-            if nm == "address" and al is None and pl[0] <= body["argc"]:
-                al = pl[0]
+    u64p = [i for i in range(1, body["argc"] + 1) if body["types"][body["locals"][i]] == "u64"]
+    al = u64p[0] if len(u64p) == 1 else None
+    for li, ty in enumerate(body["locals"]):
+        tys = body["types"][ty]
+        if li <= body["argc"]:
+            continue
+        if bd is None and tys.endswith("TranslateBranchDelay"):
+            bd = li
+        if sl is None and tys.startswith("std::vec::Vec<(u64, std::option::Option<il::expression::Expression>)>"):
+            sl = li
     rep.anchor(None not in (bd, sl, al), "mips translate_block: locals branch_delay, successors, address")
     st = tm.local(sl)
     tests = [i for i, b in enumerate(body["blocks"]) if b["t"]["k"] == "SwitchInt" and
